@@ -13,7 +13,7 @@ import json, math, random
 from . import common as C
 
 PID = "C11"
-MUTANTS = ["X_wrong_sum", "x_unnormalised", "mass_mode_as_number", "stale_norm", "mass_unit_blind"]
+MUTANTS = ["X_wrong_sum", "x_unnormalised", "mass_mode_as_number", "stale_norm", "mass_unit_blind", "operand_aliased"]
 
 
 def cfg(maxk, pvals, mvals, emit):
